@@ -7,6 +7,10 @@ use raft::StateRole;
 const F21: Shape = Shape::follower3(2, 1);
 const F21T: Shape = Shape::follower3(2, 1).with_terms(&[1, 2, 3]);
 const L21T: c14::LogShape = c14::LogShape { base: 0, n_stable: 2, n_unstable: 1, terms: &[1, 2, 3] };
+const LG21: c14::LogShape = c14::LogShape { base: 0, n_stable: 2, n_unstable: 1, terms: &[] };
+const LG22: c14::LogShape = c14::LogShape { base: 0, n_stable: 2, n_unstable: 2, terms: &[1, 2, 2, 3] };
+const LG21B: c14::LogShape = c14::LogShape { base: 7, n_stable: 2, n_unstable: 1, terms: &[] };
+const LG30: c14::LogShape = c14::LogShape { base: 0, n_stable: 3, n_unstable: 0, terms: &[1, 2, 3] };
 const F30: Shape = Shape::follower3(3, 0);
 const S3: c12::CShape = c12::CShape { inc: &[1, 2, 3], out: &[], lrn: &[], nxt: &[], auto: false };
 const S3L: c12::CShape = c12::CShape { inc: &[1, 2, 3], out: &[], lrn: &[4], nxt: &[], auto: false };
@@ -928,12 +932,45 @@ harnesses! {
     { dbg_f, "DBG", quick, unwind = 5, "dbg", |s| c14::dbg_f(s, &L21T) }
     { dbg3, "DBG", quick, unwind = 5, "dbg", |s| c14::dbg3(s, &L21T) }
     { dbg4, "DBG", quick, unwind = 5, "dbg", |s| c14::dbg4(s, &L21T) }
-    { log_append_dup, "C14", quick, unwind = 5,
+    { log_append_dup, "C14,C05", quick, unwind = 8,
       "RaftLog::maybe_append on log terms [1,2,3] (2 stable + 1 unstable), prev=(1,1), entries [2,3] (duplicate); symbolic committed/applied/persisted/m.commit; compared with the sequence model",
-      |s| c14::maybe_append(s, &L21T, 1, 1, &[2, 3]) }
-    { log_append_conf_stable, "C14", quick, unwind = 5,
+      |s| c14::maybe_append(s, &L21T, 1, 1, &[2, 3], false) }
+    { log_append_conf_stable, "C14,C05", quick, unwind = 8,
       "same, entries [3,3]: conflict at index 2 inside stable storage",
-      |s| c14::maybe_append(s, &L21T, 1, 1, &[3, 3]) }
+      |s| c14::maybe_append(s, &L21T, 1, 1, &[3, 3], true) }
+    { log_append_conf_unstable, "C14,C05", quick, unwind = 8,
+      "RaftLog::maybe_append, entries [2,4]: conflict at index 3 inside the unstable suffix",
+      |s| c14::maybe_append(s, &L21T, 1, 1, &[2, 4], true) }
+    { log_append_extend, "C14,C05", quick, unwind = 8,
+      "RaftLog::maybe_append after the last entry, entries [3,4]: pure extension",
+      |s| c14::maybe_append(s, &L21T, 3, 3, &[3, 4], true) }
+    { log_append_reject, "C14,C05", quick, unwind = 8,
+      "RaftLog::maybe_append with a prev (index, term) that is not in the log: refused, nothing changes",
+      |s| c14::maybe_append(s, &L21T, 2, 1, &[2], false) }
+    { log_queries, "C14,C03", quick, unwind = 8,
+      "RaftLog queries on a log of 2 stable + 1 unstable entries (symbolic terms, cursors): term, match_term, is_up_to_date, find_conflict_by_term, has_next_entries_since with symbolic arguments against the sequence model",
+      |s| c14::queries(s, &LG21) }
+    { log_queries_compacted, "C14,C15", quick, unwind = 8,
+      "same on a compacted log (snapshot point 7)",
+      |s| c14::queries(s, &LG21B) }
+    { log_cursors, "C14,C04", quick, unwind = 8,
+      "RaftLog::maybe_commit / commit_to / maybe_persist / applied_to with symbolic (index, term) on 2 stable + 1 unstable entries: cursors move exactly per the model, applied <= committed <= last, persisted never beyond stable storage with matching term",
+      |s| c14::cursors(s, &LG21) }
+    { log_cursors_compacted, "C14,C04", thorough, unwind = 8,
+      "same on a compacted log (snapshot point 7)",
+      |s| c14::cursors(s, &LG21B) }
+    { log_slice_limit_boundary, "C14,C13,C05", quick, unwind = 8,
+      "RaftLog::slice over the stable/unstable boundary with size limits at every prefix-sum boundary (-1, exact, +1), 0 and NO_LIMIT: entries 1..=4 (2 stable + 2 unstable), the second stable entry carries a 40-byte payload -> result is always the maximal contiguous prefix within the limit, at least one entry",
+      |s| c14::slice_limit(s, &LG22, &[0, 40, 0, 0], 1, 5) }
+    { log_slice_limit_unstable, "C14,C13", quick, unwind = 8,
+      "same with the large payload in the first unstable entry",
+      |s| c14::slice_limit(s, &LG22, &[0, 0, 40, 0], 1, 5) }
+    { log_slice_limit_stable, "C14,C13", thorough, unwind = 8,
+      "size-limited slice inside stable storage only (3 stable entries, payloads 0/40/0)",
+      |s| c14::slice_limit(s, &LG30, &[0, 40, 0], 1, 4) }
+    { log_restore_seq, "C14,C15", quick, unwind = 8,
+      "RaftLog::restore(snapshot at symbolic index >= committed, symbolic term) then a stale maybe_persist, stable_snap, maybe_persist_snap: log collapses to the snapshot point, persisted never lands on the pending snapshot index",
+      |s| c14::restore_seq(s, &LG21) }
     // ---------------- C18 Inflights ----------------
     { c18_base, "C18", quick, unwind = 8,
       "induction base: Inflights::new(c), c in 0..=5, is an II-state denoting the empty FIFO",
